@@ -375,6 +375,10 @@ func (m *msView) Store(_ context.Context, id string, created int64, e *appencryp
 		m.w.Foreign().InsertSame(id, created, e.ParentKeyMeta != nil)
 	}
 	_, exists := m.w.Store.Rows[id][created]
+	if m.w.ScanLeaks {
+		m.w.scanLeak("metastore-row", fromEKR(e), false)
+		m.w.scanLeak("metastore-row.key", e.EncryptedKey, false)
+	}
 	if !exists {
 		m.w.Store.put(fmt.Sprintf("sdk:p%d", m.proc), id, created, fromEKR(e), opIdx)
 	}
